@@ -27,7 +27,7 @@ pub fn run(ctx: &Ctx) -> i32 {
     let nlisted = keys.len();
     keys.push(x25519("u")); keys.push(mlkem("v", EncapsulationScheme::MLKEM512));
     if th { keys.push(mlkem("w", EncapsulationScheme::MLKEM768)); }
-    let trees = { let mut t = families::plain(if th { 5 } else { 4 }); t.extend(families::nsn()); if th { t.extend(families::valued()) } else { t.extend(families::valued_few()) } t };
+    let trees = { let mut t = families::plain(if th { 5 } else { 4 }); t.extend(families::nsn()); t.extend(families::decorated_obscured()); if th { t.extend(families::valued()) } else { t.extend(families::valued_few()) } t };
     let maxlen = if th { 4 } else { 3 };
     let mut all_lists = vec![]; for l in 1..=maxlen { all_lists.extend(lists(nlisted, l)) }
     let acc = trees.par_iter().enumerate().with_max_len(1).map(|(ti, m)| {
